@@ -213,6 +213,9 @@ def analyse_pass1(res, tags, meta):
             else:
                 f['obligation'] = '%s.safety' % body_t['fn']
             f['props'] = None
+            if body_t.get('ob'):
+                f['obligation'] = body_t['ob']
+                f['props'] = body_t['props']
             if 'decreases' in lmsg or 'termination' in lmsg:
                 f['detail'] = 'termination'
         else:
